@@ -53,11 +53,11 @@ Definition ATOM_EXPR_FIRST : list N :=
    K_RETURN_KW; K_WHILE_KW; K_MEASURE_KW; K_INV_KW; K_CTRL_KW; K_NEGCTRL_KW; K_POW_KW; K_GPHASE_KW].
 Definition EXPR_RECOVERY_SET : list N := [K_R_PAREN; K_R_BRACK].
 Definition LHS_FIRST : list N :=
-  ATOM_EXPR_FIRST ++ [K_AMP; K_STAR; K_BANG; K_DOT; K_MINUS; K_UNDERSCORE].
+  ATOM_EXPR_FIRST ++ [K_AMP; K_STAR; K_BANG; K_TILDE; K_DOT; K_MINUS; K_UNDERSCORE].
 Definition EXPR_FIRST : list N := LHS_FIRST.
 Definition PATTERN_FIRST : list N :=
   LITERAL_FIRST ++ PATH_FIRST ++
-  [K_BOX_KW; K_CONST_KW; K_L_PAREN; K_L_BRACK; K_AMP; K_UNDERSCORE; K_MINUS; K_DOT].
+  [K_BOX_KW; K_CONST_KW; K_L_PAREN; K_L_BRACK; K_AMP; K_UNDERSCORE; K_MINUS; K_TILDE; K_DOT].
 Definition TYPE_FIRST : list N :=
   PATH_FIRST ++ [K_L_PAREN; K_L_BRACK; K_L_ANGLE; K_BANG; K_STAR; K_AMP; K_UNDERSCORE; K_EXTERN_KW].
 Definition PARAM_FIRST : list N := PATTERN_FIRST ++ TYPE_FIRST.
